@@ -161,6 +161,8 @@ pub fn wasm(sink: &mut Sink, seed: u64, thorough: bool, alphabet: &str, behaviou
     let mut qcontents: Vec<String> = contents.iter().map(|s| s.to_string()).collect();
     for k in [1usize, 17, 100, 1273, 1663, 1664, 2000, 7089] { qcontents.push("7".repeat(k)); qcontents.push("a".repeat(k)); }
     for _ in 0..(if thorough { 300 } else { 40 }) { let len = r.gen_range(0..200); let md = r.gen_range(0..3); qcontents.push(String::from_utf8_lossy(&payload(&mut r, md, len, false)).to_string()); }
+    // text-level contents (valid UTF-8 by Unicode category): the facade takes &str, the builder bytes
+    for (i, (_, t)) in unicode_texts(seed, thorough).into_iter().enumerate() { if thorough || i % 5 == (seed % 5) as usize { if let Ok(s) = String::from_utf8(t) { qcontents.push(s); } } }
     for c in &qcontents { let id = sink.id(); sink.emit(&wasm_qr_event(id, "wasmqr", c)); }
     // contents that need large versions, with options
     for (i, n) in [700usize, 1200, 1600, 1663].into_iter().enumerate() {
